@@ -36,6 +36,10 @@ GROUP: Dict[str, str] = {
     "DataTypeValidator_types_loosely_compatible": "Proofs/SrcTieTypesP.v",
     "FeatureGroup_get_column_base_feature": "Proofs/SrcTieBaseP.v",
     "FeatureChainParser_is_chained_feature": "Proofs/SrcTieChainP.v",
+    # round 2: the planner
+    "JoinStep_get_uuids": "Proofs/SrcTiePlanP.v",
+    "JoinStepCollection_similar_dependent_joins_uuids": "Proofs/SrcTiePlanP.v",
+    "JoinStepCollection_add": "Proofs/SrcTiePlanP.v",
 }
 # lemma -> target, to name the first lemma coqc stopped at
 LEMMA_TARGET = {
@@ -58,6 +62,10 @@ LEMMA_TARGET = {
     "split1_head": "FeatureGroup_get_column_base_feature", "column_base_feature_src": "FeatureGroup_get_column_base_feature",
     "split1_split_on": "FeatureGroup_get_column_base_feature", "column_base_src": "FeatureGroup_get_column_base_feature",
     "startswith_dunder": "FeatureChainParser_is_chained_feature", "is_chained_feature_src": "FeatureChainParser_is_chained_feature",
+    "joinstep_get_uuids_src": "JoinStep_get_uuids",
+    "similar_loop_src": "JoinStepCollection_similar_dependent_joins_uuids",
+    "similar_dependent_joins_uuids_src": "JoinStepCollection_similar_dependent_joins_uuids",
+    "joinstep_collection_add_src": "JoinStepCollection_add", "joinstep_collection_add_fresh": "JoinStepCollection_add",
 }
 
 TRUSTED = [
@@ -113,14 +121,16 @@ def check(rep: vlib.Reporter, prop: Optional[str] = None) -> bool:
     ok = True
     if not pr.ok:
         broken = _first_broken_lemma(pr.log)
-        src_broken = "Gen/Src.v" in pr.failed_files or "Model/PySem.v" in pr.failed_files
+        gen_broken = {g for g in py2coq.gen_files() if f"Gen/{g}.v" in pr.failed_files}
+        sem_broken = "Model/PySem.v" in pr.failed_files or "Model/PyObj.v" in pr.failed_files
         other = [f for f in pr.failed_files if not f.startswith(("Proofs/SrcTie", "Props/SrcTie", "Gen/Src"))]
         affected = []
         for t in mine:
             if status.get(t) is not None:
                 affected.append((t, "translation-failed-closed", status[t]))
-            elif src_broken:
-                affected.append((t, "generated-file-does-not-compile", "coq/Gen/Src.v is not accepted by coqc"))
+            elif sem_broken or py2coq.TARGET_BY_NAME[t].gen in gen_broken:
+                affected.append((t, "generated-file-does-not-compile",
+                                 f"coq/Gen/{py2coq.TARGET_BY_NAME[t].gen}.v is not accepted by coqc"))
             elif GROUP[t] in pr.failed_files:
                 first = broken.get(GROUP[t])
                 why = f"{GROUP[t]} no longer checks" + (f" (coqc stopped in lemma {first}, about {LEMMA_TARGET.get(first, '?')})"
@@ -318,6 +328,115 @@ def _space(target: str) -> Dict[str, Any]:
                 "term": lambda i, o: f"({cq_str(i['feature_name'])}, {_ob(o)})",
                 "type": "string * option bool", "req": ["MV.Model.ChainParser"],
                 "defs": OB + "Definition chk (c : string * option bool) := ob (snd c) (has_dunder (list_ascii_of_string (fst c)))."}
+    if py2coq.TARGET_BY_NAME[target].gen == "SrcPlan":
+        return _space_plan(target)
+    raise KeyError(target)
+
+
+# ---------------------------------------------------------------------------------------------------------------------
+# the planner targets (round 2): small exhaustive spaces of collections / queues / trekker tables; uuid k <-> UUID(int=k+1)
+# ---------------------------------------------------------------------------------------------------------------------
+_CFW: List[type] = []
+
+
+def _cfws() -> List[type]:
+    if not _CFW:
+        _CFW.extend(type(f"SrcTieCfw{i}", (), {}) for i in range(3))
+    return _CFW
+
+
+def _uu(k: int) -> Any:
+    from uuid import UUID
+    return UUID(int=k + 1)
+
+
+def _real_plink(uid: int) -> Any:
+    """a real Link whose uuid is uid (Links of different uid are different under Link.__eq__ as well)"""
+    from harness import c18
+    classes = c18.make_classes([None] * 6, "stp")
+    a, b = divmod(uid // 4, 5)
+    l = c18.real_link(classes, {"jt": "INNER", "l": a % 6, "r": (a + 1 + b) % 6, "li": ["k"], "ri": ["k"]})
+    l.uuid = _uu(uid)
+    return l
+
+
+def _real_joinstep(js: List[int]) -> Any:
+    from mloda.core.core.step.join_step import JoinStep
+    uid, lf, rf = js
+    o = JoinStep(_real_plink(uid), _cfws()[lf], _cfws()[rf], set(), set(), set())
+    o.uuid = _uu(uid + 1)           # the numbering convention of Model/PlannerL.v: js_uid u = u + 1
+    return o
+
+
+def _nl(l: Any) -> str:
+    return cq_list(cq_nat(x) for x in l)
+
+
+def _cq_js(js: List[int]) -> str:
+    return f"({cq_nat(js[0])}, ({cq_nat(js[1])}, {cq_nat(js[2])}))"
+
+
+def _collections() -> List[List[List[int]]]:
+    pairs = [(a, b) for a in range(3) for b in range(3)]
+    one = [[[0, a, b]] for a, b in pairs]
+    two = [[[0, a, b], [4, c, d]] for a, b in pairs for c, d in pairs]
+    ring = [(0, 1), (1, 2), (2, 0)]
+    three = [[[0, a, b], [4, c, d], [8, e, f]] for a, b in ring for c, d in ring for e, f in ring]
+    return [[]] + one + two + three
+
+
+def _ints(us: Any) -> Any:
+    return sorted(u.int - 1 for u in us) if isinstance(us, (set, frozenset)) else None
+
+
+def _space_plan(target: str) -> Dict[str, Any]:
+    SOME = "Definition osome (a : option (list nat)) (b : list nat) := match a with Some x => PlannerL.sets_eqb x b | None => false end.\n"
+    if target == "JoinStep_get_uuids":
+        return {"inputs": [{"join_step": [u, a, b]} for u in (0, 4, 8) for a in range(2) for b in range(2)],
+                "real": lambda i: _ints(_real_joinstep(i["join_step"]).get_uuids()),
+                "term": lambda i, o: f"({_cq_js(i['join_step'])}, {'Some ' + _nl(o) if isinstance(o, list) else 'None'})",
+                "type": "(nat * (nat * nat)) * option (list nat)", "req": ["MV.Model.PlannerL"],
+                "defs": SOME + "Definition chk (c : (nat * (nat * nat)) * option (list nat)) := "
+                               "osome (snd c) [PlannerL.js_uid (fst (fst c)); fst (fst c)]."}
+    if target in ("JoinStepCollection_similar_dependent_joins_uuids", "JoinStepCollection_add"):
+        from mloda.core.prepare.joinstep_collection import JoinStepCollection
+
+        def coll(steps: List[List[int]]) -> Any:
+            c = JoinStepCollection()
+            for k, js in enumerate(steps):
+                c.collection[_real_joinstep(js)] = {_uu(100 + k)}
+            return c
+        if target.endswith("_uuids"):
+            return {"inputs": [{"collection": c, "left_framework": a, "right_framework": b}
+                               for c in _collections() for a in range(3) for b in range(3)],
+                    "real": lambda i: _ints(coll(i["collection"]).similar_dependent_joins_uuids(
+                        _cfws()[i["left_framework"]], _cfws()[i["right_framework"]])),
+                    "term": lambda i, o: (f"(({cq_list(_cq_js(j) for j in i['collection'])}, {cq_nat(i['left_framework'])}, "
+                                          f"{cq_nat(i['right_framework'])}), {'Some ' + _nl(o) if isinstance(o, list) else 'None'})"),
+                    "type": "(list (nat * (nat * nat)) * nat * nat) * option (list nat)", "req": ["MV.Model.PlannerL"],
+                    "defs": SOME + "Definition chk (c : (list (nat * (nat * nat)) * nat * nat) * option (list nat)) := "
+                                   "match c with ((jc, lf, rf), o) => osome o (PlannerL.jc_required jc lf rf) end."}
+
+        def real_add(i: dict) -> Any:
+            c = coll(i["collection"])
+            c.add(_real_joinstep(i["join_step"]))
+            return [[k.link.uuid.int - 1, k.left_framework.__name__[-1], k.right_framework.__name__[-1], _ints(v)]
+                    for k, v in c.collection.items()]
+        cols = [c for c in _collections() if len(c) <= 2]
+        return {"inputs": [{"collection": c, "join_step": [12, a, b]} for c in cols for a in range(3) for b in range(3)],
+                "real": real_add,
+                "term": lambda i, o: (f"(({cq_list(_cq_js(j) for j in i['collection'])}, {_cq_js(i['join_step'])}), "
+                                      + (cq_list(f"(({cq_nat(e[0])}, ({e[1]}, {e[2]})), {_nl(e[3])})" for e in o)
+                                         if isinstance(o, list) else "[]") + ")"),
+                "type": "(list (nat * (nat * nat)) * (nat * (nat * nat))) * list ((nat * (nat * nat)) * list nat)",
+                "req": ["MV.Model.PlannerL"],
+                # the values of the entries that were there are the markers 100 + position; the new entry is jc_required of the keys
+                "defs": "Definition chk (c : (list (nat * (nat * nat)) * (nat * (nat * nat))) * list ((nat * (nat * nat)) * list nat)) := "
+                        "match c with ((jc, js), o) => "
+                        "PlannerL.list_eqb_by (fun a b => Nat.eqb (fst a) (fst b) && Nat.eqb (fst (snd a)) (fst (snd b)) "
+                        "&& Nat.eqb (snd (snd a)) (snd (snd b))) (map fst o) (jc ++ [js]) "
+                        "&& PlannerL.list_eqb_by PlannerL.sets_eqb (map snd o) "
+                        "(map (fun k => [100 + k]) (seq 0 (List.length jc)) ++ [PlannerL.jc_required jc (fst (snd js)) (snd (snd js))]) end."}
     raise KeyError(target)
 
 
